@@ -511,6 +511,34 @@ func splitBad(buf []byte, n int) (byte, byte) {
 	return lo[0], hi[0]
 }
 
+// SIZECOND control: the optional part is counted when non-nil but written when non-empty
+type Opt struct {
+	Base  uint64
+	Extra []byte
+}
+
+func (o Opt) BinarySize() (size int) {
+	size = 8
+	if o.Extra != nil {
+		size += len(o.Extra)
+	}
+	return
+}
+
+func (o Opt) WriteTo(w io.Writer) (n int64, err error) {
+	b := []byte{byte(o.Base), byte(o.Base >> 8), 0, 0, 0, 0, 0, 0}
+	k, err := w.Write(b)
+	if err != nil {
+		return int64(k), err
+	}
+	n = int64(k)
+	if len(o.Extra) != 0 {
+		k, err = w.Write(o.Extra)
+		n += int64(k)
+	}
+	return
+}
+
 func rnsBad(r *ring.Ring, v uint64) (rns ring.RNSScalar) {
 	rns = make(ring.RNSScalar, r.Level()+1)
 	for i := range rns {
